@@ -318,6 +318,7 @@ def handle (s : Sys) (g : Nat) : Nat :=
 structure Choice where
   fault : Bool := false   -- the call that leaves the engine fails
   pick : Wid := default   -- Go map iteration: which source `range c.sources` yields next
+  perm : List Wid := []   -- Go map iteration: the order in which GetWatches listed the watches the collector stops
   deriving Repr
 
 def acquire (s : Sys) (i : Nat) (pc' : Pc) (act : Act := .nop) : Option (Pc × Act) :=
@@ -420,9 +421,10 @@ def next (cfg : Cfg) (s : Sys) (i : Nat) (t : Thread) (ch : Choice) : Option (Pc
     | some cid => some (.gcCR cid n refs, .nop)
   | .gcCR cid n refs => acquire s i (.gcCRrel cid ((srcsOf s cid).map (·.1)) n refs)
   | .gcCRrel _ l n refs =>
+    -- GetWatches returns the watches in map order; the order only matters for the stop list
     match gcStop cfg l refs with
     | [] => some (.done .ok, .nop)
-    | w :: ws => some (.xw0 n (w :: ws), .nop)
+    | w :: ws => if ch.perm.isPerm (w :: ws) then some (.xw0 n ch.perm, .nop) else none
 
 def step (cfg : Cfg) (s : Sys) (i : Nat) (ch : Choice) : Option Sys :=
   match s.threads[i]? with
